@@ -24,19 +24,21 @@ MergesFit(nr, nc) == {m \in Merges(nr, nc) : m[3] * m[4] > 1 /\ m[1] + m[3] - 1 
 KindOf(sp, r, c) == IF \E n \in 1..Len(sp) : sp[n][1] = r /\ sp[n][2] = c
                     THEN sp[CHOOSE n \in 1..Len(sp) : sp[n][1] = r /\ sp[n][2] = c][3] ELSE "plain"
 
-\* <<"T", nr, nc, hdr, specials, merge>>       merge = <<0,0,1,1>>: none
+\* <<"T", nr, nc, hm, specials, merge>>       merge = <<0,0,1,1>>: none;  hm: header marking
 Shapes == (1..3) \X (1..3)
-CasesTOk == UNION {{<<"T", sh[1], sh[2], h, sp, <<0, 0, 1, 1>>>> : h \in BOOLEAN, sp \in Specials(sh[1], sh[2], MaxSpecial)} : sh \in Shapes}
-CasesTM == UNION {{<<"T", sh[1], sh[2], h, sp, m>> : h \in BOOLEAN, sp \in Specials(sh[1], sh[2], 1), m \in MergesFit(sh[1], sh[2])} : sh \in Shapes}
-\* full alphabet on small tables: <<"F", nr, nc, hdr, kinds as a function>>
-CasesF == UNION {{<<"F", sh[1], sh[2], h, kd>> : h \in BOOLEAN, kd \in [1..sh[1] -> [1..sh[2] -> CellKinds]]} :
+MarksFor(nr, S) == {hm \in S : HMarkFits(hm, nr)}
+CasesTOk == UNION {{<<"T", sh[1], sh[2], h, sp, <<0, 0, 1, 1>>>> : h \in MarksFor(sh[1], HMarks), sp \in Specials(sh[1], sh[2], MaxSpecial)} : sh \in Shapes}
+CasesTM == UNION {{<<"T", sh[1], sh[2], h, sp, m>> : h \in MarksFor(sh[1], {"none", "first", "lead2"}), sp \in Specials(sh[1], sh[2], 1), m \in MergesFit(sh[1], sh[2])} : sh \in Shapes}
+\* full alphabet on small tables: <<"F", nr, nc, hm, kinds as a function>>
+CasesF == UNION {{<<"F", sh[1], sh[2], h, kd>> : h \in MarksFor(sh[1], {"none", "first", "all"}), kd \in [1..sh[1] -> [1..sh[2] -> CellKinds]]} :
                    sh \in {x \in Shapes : x[1] * x[2] <= FullCells}}
 
 TableOf(d) ==
     IF d[1] = "T"
-    THEN [nr |-> d[2], nc |-> d[3], hdr |-> d[4], kind |-> [r \in 1..d[2] |-> [c \in 1..d[3] |-> KindOf(d[5], r, c)]],
+    THEN [nr |-> d[2], nc |-> d[3], hm |-> d[4], hdr |-> 1 \in HdrRowsOf(d[4], d[2]),
+          kind |-> [r \in 1..d[2] |-> [c \in 1..d[3] |-> KindOf(d[5], r, c)]],
           m |-> [r |-> d[6][1], c |-> d[6][2], rs |-> d[6][3], cs |-> d[6][4]]]
-    ELSE [nr |-> d[2], nc |-> d[3], hdr |-> d[4], kind |-> d[5], m |-> NoMerge]
+    ELSE [nr |-> d[2], nc |-> d[3], hm |-> d[4], hdr |-> 1 \in HdrRowsOf(d[4], d[2]), kind |-> d[5], m |-> NoMerge]
 
 \* ---------------------------------------------------------------- headings
 CasesH == {<<"H", lv, off, mx>> : lv \in 1..9, off \in -2..7, mx \in 1..6}
@@ -53,7 +55,7 @@ CasesD == {<<"D", off, mx, me, toc>> : off \in {-1, 0, 2}, mx \in {2, 6}, me \in
 
 H(lv, w) == [t |-> "heading", level |-> lv, w |-> w]
 P(w) == [t |-> "para", w |-> w]
-DocTable == [nr |-> 2, nc |-> 3, hdr |-> TRUE,
+DocTable == [nr |-> 2, nc |-> 3, hm |-> "first", hdr |-> TRUE,
              kind |-> <<<<"plain", "pipe", "plain">>, <<"empty", "nl", "padded">>>>, m |-> NoMerge]
 DocList == <<[d |-> 0, k |-> "u", w |-> "i1"], [d |-> 1, k |-> "u", w |-> "i2"], [d |-> 2, k |-> "u", w |-> "i3"],
              [d |-> 0, k |-> "u", w |-> "i4"]>>
@@ -83,7 +85,8 @@ LineText(ln) ==
       [] ln.t = "blank" -> ""
 
 ElOut(el) ==
-    CASE el.t = "table"   -> [t |-> "table", nr |-> el.tb.nr, nc |-> el.tb.nc, hdr |-> el.tb.hdr, merged |-> HasMerge(el.tb),
+    CASE el.t = "table"   -> [t |-> "table", nr |-> el.tb.nr, nc |-> el.tb.nc, hdr |-> el.tb.hdr, hm |-> el.tb.hm,
+                              hrows |-> SetToSortSeq(HdrRowsOf(el.tb.hm, el.tb.nr), <), merged |-> HasMerge(el.tb),
                               src |-> Src(el.tb), special |-> Special(el.tb)]
       [] el.t = "heading" -> [t |-> "heading", level |-> el.level, w |-> el.w]
       [] el.t = "list"    -> [t |-> "list", items |-> el.items, uniform |-> Uniform(el.items)]
